@@ -12,6 +12,7 @@ import (
 	"fmt"
 	"net"
 	"os"
+	"runtime"
 	"strconv"
 	"strings"
 	"sync"
@@ -192,7 +193,21 @@ func (c *conductor) willFill(p *mpool) bool {
 // goroutine has taken its decision (no labelled goroutine that has not run yet or is inside fill itself), so that
 // it cannot take it later in a different state.
 func (c *conductor) fillBarrier() {
-	c.waitFor("pending fill() calls decide", func() bool { return pendingFills(c.label) == 0 })
+	c.waitFor("pending fill() calls decide", profiled(func() bool { return pendingFills(c.label) == 0 }))
+}
+
+// profiled wraps a condition that takes a goroutine profile (a stop-the-world operation): it is evaluated at most
+// every 2 ms, so that several scenarios polling at once do not starve the goroutines they are waiting for.
+func profiled(cond func() bool) func() bool {
+	var last time.Time
+	return func() bool {
+		if !last.IsZero() && time.Since(last) < 2*time.Millisecond {
+			return false
+		}
+		ok := cond()
+		last = time.Now()
+		return ok
+	}
 }
 
 func (c *conductor) trigger(p *mpool) {
@@ -347,7 +362,7 @@ func (c *conductor) observe() string {
 	}
 	hs := want
 	if !c.degraded {
-		c.waitFor("reporter goroutines of finished handshakes are gone", func() bool { hs = hsReporters(c.label); return hs == want })
+		c.waitFor("reporter goroutines of finished handshakes are gone", profiled(func() bool { hs = hsReporters(c.label); return hs == want }))
 	}
 	return fmt.Sprintf("%s:%d:%d:%d", cur, c.openSockets(), cc, hs)
 }
@@ -451,27 +466,11 @@ func (c *conductor) act(a string) bool {
 		}
 		c.cur.h.Pick()
 		c.trigger(c.cur)
-	case "burst": // several fill triggers at once: 32 goroutines released together call Pick
+	case "burst": // several fill triggers at once: goroutines released together call Pick
 		if c.cur == nil {
 			return false
 		}
-		var ready, done sync.WaitGroup
-		var gateN int32
-		h := c.cur.h
-		for i := 0; i < 32; i++ {
-			ready.Add(1)
-			done.Add(1)
-			go func() {
-				defer done.Done()
-				ready.Done()
-				for atomic.LoadInt32(&gateN) == 0 {
-				}
-				h.Pick()
-			}()
-		}
-		ready.Wait()
-		atomic.StoreInt32(&gateN, 1)
-		done.Wait()
+		burstPicks(c.cur.h)
 		c.trigger(c.cur)
 		c.fillBarrier() // every one of the started fill() calls has decided
 	case "down":
@@ -915,4 +914,35 @@ func parsePipeCfg(ws []string) (pipeCfg, bool) {
 		}
 	}
 	return cfg, seen == 1 && cfg.size >= 1 && cfg.size <= 8
+}
+
+// burstPicks: n goroutines (not more than half of the processors, so that all of them really run at the same time)
+// spin on one flag and call Pick the moment it flips: several `go pool.fill()` start within nanoseconds.
+func burstPicks(h *gocql.VerifHostPool) {
+	n := runtime.GOMAXPROCS(0) / 2
+	if n > 8 {
+		n = 8
+	}
+	if n < 2 {
+		n = 2
+	}
+	var ready, done sync.WaitGroup
+	var flag int32
+	for i := 0; i < n; i++ {
+		ready.Add(1)
+		done.Add(1)
+		go func() {
+			defer done.Done()
+			ready.Done()
+			for k := 0; atomic.LoadInt32(&flag) == 0; k++ {
+				if k&0xfffff == 0xfffff {
+					runtime.Gosched()
+				}
+			}
+			h.Pick()
+		}()
+	}
+	ready.Wait()
+	atomic.StoreInt32(&flag, 1)
+	done.Wait()
 }
